@@ -53,8 +53,8 @@ func (doc T) MarshalJSON() ([]byte, error) {
 	if x := doc.BasePath; x != "" {
 		m["basePath"] = x
 	}
-	if x := doc.Paths; len(x) != 0 {
-		m["paths"] = x
+	if x := doc.Paths; x != nil {
+		m["paths"] = x // required field: an empty paths object is kept
 	}
 	if x := doc.Definitions; len(x) != 0 {
 		m["definitions"] = x
